@@ -4,7 +4,9 @@
 **      position and drags the read position onto it.
 ** KF3: when the underlying seek fails, sf_seek returns -1 but also stores -1 into the
 **      read/write position.
-** exit status: bit 0 = KF2 reproduced, bit 1 = KF3 reproduced. */
+** KF6: consequence of KF2 inside the library: SFC_CALC_SIGNAL_MAX on a read/write handle whose read and write
+**      positions differ leaves the read position at the write position.
+** exit status: bit 0 = KF2 reproduced, bit 1 = KF3 reproduced, bit 2 = KF6 reproduced. */
 #include <sndfile.h>
 #include <stdio.h>
 #include <string.h>
@@ -37,6 +39,12 @@ int main (void)
 	sf_count_t rd = sf_seek (f, 0, SEEK_CUR | SFM_READ) ;
 	printf ("KF3: failing seek returned %ld (error %d); read position afterwards %ld (was 2)\n", (long) r, sf_error (f), (long) rd) ;
 	if (r == -1 && rd != 2) res |= 2 ;
+	sf_seek (f, 2, SEEK_SET | SFM_READ) ;
+	{	double mx = 0 ; sf_command (f, SFC_CALC_SIGNAL_MAX, &mx, sizeof (mx)) ;
+		sf_count_t rd2 = sf_seek (f, 0, SEEK_CUR | SFM_READ) ;
+		printf ("KF6: read position 2 before SFC_CALC_SIGNAL_MAX, %ld after (max %g)\n", (long) rd2, mx) ;
+		if (rd2 != 2) res |= 4 ;
+		} ;
 	sf_close (f) ;
 	return res ;
 }
